@@ -167,7 +167,7 @@ CANARIES = {
         ("naive-datetime-value-compared-as-given", "stix2/datastore/filters.py", "text", ["isinstance(self.value, (str, datetime)):", "isinstance(self.value, str):"], "C12.timestamp-coercion"),
         ("path-step-into-plain-value-raises", "stix2/datastore/filters.py", "text", ["    if not isinstance(stix_obj, collections.abc.Mapping):\n", "    if False:\n"], "C12.conjunction"),
         ("answer-before-the-operator-table", "stix2/datastore/filters.py", "text", ["        if self.op == \"=\":\n            return stix_obj_property == filter_value", "        if self.op in (\">\", \"<\") and not isinstance(stix_obj_property, type(filter_value)):\n            return False\n        if self.op == \"=\":\n            return stix_obj_property == filter_value"], "C12.operator-table"),
-        ("filter-value-joined-into-a-path-as-it-is", "stix2/datastore/filesystem.py", "text", ["            if os.path.basename(filename) != filename or \"\\0\" in filename:\n", "            if False:\n"], "C12.optimiser-table"),
+        ("filter-value-joined-into-a-path-as-it-is", "stix2/datastore/filesystem.py", "text", ["            if os.path.basename(filename) != filename or \"\\0\" in filename \\\n                    or filename in (\".\", \"..\"):\n", "            if False:\n"], "C12.optimiser-table"),
     ],
     "C13": [
         ('resolved-type-written-back', 'stix2/base.py', 'text', ['                ref_type = self._STIXBase__valid_refs[ref]\n', '                ref_type = self._STIXBase__valid_refs[ref] = str(self._STIXBase__valid_refs[ref])\n'], 'C13.no-param-mutation'),
